@@ -237,6 +237,25 @@ def detect_strategy():
     return st.one_of(stage, stage, negative)
 
 
+def _exercise_view(view, plain, how, salt):
+    """A view handed out by a detecting constructor is the same read-only file as one constructed directly: a fixed
+    script of seeks and reads (also at and beyond the end) against BytesIO over the decoded bytes."""
+    model = io.BytesIO(plain)
+    n = len(plain)
+    script = [("seek", n + 6, 0), ("read", 4), ("seek", -5, 2), ("read", -1), ("read", 3), ("seek", salt % (n + 1), 0), ("read", 5), ("seek", 3, 1), ("read", 2), ("seek", 0, 2), ("read", 1), ("seek", n + 1000, 0), ("read", -1), ("seek", 1, 0), ("read", 7)]
+    for op in script:
+        if op[0] == "seek":
+            if op[2] == 2 and n + op[1] < 0 or op[2] == 1 and model.tell() + op[1] < 0:
+                continue
+            model.seek(op[1], op[2])
+            lib(view.seek, op[1], op[2], what=f"{how} view: seek({op[1]},{op[2]})")
+        else:
+            want = model.read(op[1])
+            got = lib(view.read, op[1], what=f"{how} view: read({op[1]}) at {model.tell() - len(want)} of {n}")
+            eq(bytes(got), want, "detect:view_not_a_file", f"{how} view: read({op[1]}) ending at position {model.tell()} of {n}")
+        eq(lib(view.tell, what=f"{how} view: tell()"), model.tell(), "detect:view_not_a_file", f"{how} view: position after {op!r} ({n}-byte view)")
+
+
 def detect_execute(case, stats):
     from dissect.cobaltstrike.xordecode import XorEncodedFile
 
@@ -265,6 +284,26 @@ def detect_execute(case, stats):
     r_again = lib(XorEncodedFile.from_file, fobj, allow=(ValueError,), what="XorEncodedFile.from_file (second call, same handle)")
     check(isinstance(r, Raised) == isinstance(r_again, Raised) and (isinstance(r, Raised) or r.nonce_offset == r_again.nonce_offset), "detect:depends_on_history", lambda: f"second from_file() on the same handle: {r!r} then {r_again!r}")
     ctx = lambda: f"raw[:96]={raw[:96].hex()} len={len(raw)} true_offset={true_off} must={must} may={may} got={r!r}"
+    if len(raw) % 8 == 0:
+        # the path-based constructor is the same detection over the file's bytes
+        import os
+        import tempfile
+
+        fd, path = tempfile.mkstemp(prefix="c09_", dir="/dev/shm" if os.path.isdir("/dev/shm") else None)
+        try:
+            with os.fdopen(fd, "wb") as f:
+                f.write(raw)
+            rp = lib(XorEncodedFile.from_path, path, allow=(ValueError,), what="XorEncodedFile.from_path")
+            same_ = isinstance(r, Raised) == isinstance(rp, Raised) and (isinstance(r, Raised) or r.nonce_offset == rp.nonce_offset)
+            if not isinstance(rp, Raised):
+                want_p = xorenc.decode_body(raw[rp.nonce_offset + 8 :], raw[rp.nonce_offset : rp.nonce_offset + 4])
+                same_ = same_ and bytes(lib(rp.read)) == want_p
+                _exercise_view(rp, want_p, "from_path", len(raw))
+                rp.fh.close()
+            stats.count("from_path")
+            check(same_, "detect:from_path_differs", lambda: f"from_path: {rp!r}, from_file on the same bytes: {r!r}; raw[:64]={raw[:64].hex()}")
+        finally:
+            os.unlink(path)
     if isinstance(r, Raised):
         check(not must, "detect:missed_stage", ctx)
         cls = "rejected"
@@ -274,6 +313,7 @@ def detect_execute(case, stats):
         want_view = xorenc.decode_body(raw[r.nonce_offset + 8 :], raw[r.nonce_offset : r.nonce_offset + 4])
         eq(got_view, want_view, "detect:view_content", f"view at nonce_offset {r.nonce_offset}")
         check(pebuild.scan_mz(got_view) is not None, "detect:no_pe_in_view", ctx)
+        _exercise_view(r, want_view, "from_file", len(raw))
         cls = "accepted"
     if true_off is not None and case.get("maxrange") is not None and not isinstance(r, Raised):
         # ``maxrange`` is how far into the FILE nonce_offset candidates are looked for: a range that covers stub, nonce and
